@@ -13,17 +13,19 @@ CFG = {
     "theorems": [T + n for n in ["C17_roundtrip", "C17_unsupported", "C17_guard_exact", "C17_guard_emitted",
                                  "C17_numfmt_int", "C17_injective",
                                  "C17_tie_encode", "C17_roundtrip_src", "C17_unsupported_src", "C17_unsupported_error_src",
-                                 "C17_roundtrip_checked", "C17_roundPos_rne", "C17_toBits_sound", "C17_rne_unique", "C17_rne_mono"]],
+                                 "C17_roundtrip_checked", "C17_roundPos_rne", "C17_toBits_sound", "C17_rne_unique", "C17_rne_mono", "C17_shortest_sound"]],
     "trusted_base": [
         "Lean 4.33.0 kernel; axioms of every theorem printed by #print axioms must be within {propext, Classical.choice, Quot.sound}",
-        "T1: lean/GeomV/C17/Gen.lean is regenerated from /repo/encoding/wkt/*.go on every run by checks/c17_go2lean.py (a ~250-line "
+        "T1: lean/GeomV/C17/Gen.lean is regenerated from /repo/encoding/wkt/*.go (all seven anchored files, wkt.go's Error() included) on every run by checks/c17_go2lean.py (a ~270-line "
         "translator for the statement forms that occur there; trusted, and exercised by T2) and proved equal to the model in Tie.lean",
         "T2: model lean/GeomV/C17/Model.lean is tied to /repo/encoding/wkt by the correspondence run on every check: byte-exact comparison of "
         "wkt.Encode's output with the model's text, the model's number formatter being Go's own strconv 'g' rendering of each coordinate",
-        "strconv.AppendFloat(x,'g',-1,64) satisfies the NumFmt contract (non-empty token over [0-9+-.eE] denoting exactly x for finite x): "
-        "hypothesis of C17_roundtrip, instance proved for Int rendering (C17_numfmt_int), and checked at run time on every generated coordinate "
-        "with the driver's exact decimal->binary64 rounding (lean/GeomV/C17/Dec.lean), itself cross-validated against strconv.ParseFloat on "
-        "non-shortest literals incl. exact ties",
+        "strconv.AppendFloat(x,'g',-1,64) on the coordinates that occur: NOT assumed - C17_roundtrip_checked needs only the decidable test "
+        "numFmtHolds on the coordinates of the input at hand, which the driver evaluates on every coordinate of every case with Go's own "
+        "rendering; the converter it uses (lean/GeomV/C17/Dec.lean) is proved to be IEEE 754 roundTiesToEven of the literal's exact rational "
+        "(C17_roundPos_rne, C17_toBits_sound, C17_rne_unique) and the shortest-form test is proved sound (C17_shortest_sound); what remains "
+        "trusted here is the definition of the value of a bit pattern (Dec.valPos: subnormal m*2^-1074, normal (2^52+m)*2^(e-1075)) and of a "
+        "literal (Dec.parseLit/magVal: mant*10^scale); Dec.toBits is still cross-validated against strconv.ParseFloat every run (class numconv)",
         "the reading of OGC 06-103r4 section 7.2.2 into lean/GeomV/C17/Spec.lean (2-D productions, white space optional between tokens, "
         "letters case-insensitive)",
         "harness/cmd/c17 + lean driver + lib/vcheck.py transport inputs faithfully",
@@ -34,9 +36,9 @@ CFG = {
             "subnormals, 17-digit values) + grammar-generated geometries of the five types (member counts 1..6, ring counts 1..4, occasionally 17..300; 'wide' geometries with 65/129/257/1025 members at exactly one nesting level) "
             "with coordinates from {arbitrary finite 64-bit patterns, subnormals, -0, values within 3 ulp of 1e21/1e20/1e-4/1e-5/1e-7, integers, "
             "17-significant-digit values, 2^e sweep, quarter grid}; 5% each: empty members, non-finite, unsupported types; plus decimal-literal "
-            "cross-validation cases (class numconv). plus batch lines (a history of 2..8 Encode calls whose returned slices are kept and re-verified after the whole batch); distinct = distinct input line; non-trivial = verdict class not 'skipped'",
+            "cross-validation cases (class numconv); pointer-typed geometries (encp: *geom.Point ... not listed in Encode's switch); every other enc line (by hash of the line) is preceded by one Encode call on a long geometry with -0/extreme values (used encoder) and/or has all its slices rebuilt with spare capacity holding junk beyond len; 70 (thorough 500) cc lines: reference answer alone, then 8 goroutines repeat the call on private copies while 8 others encode 1025-vertex / 257-ring geometries (class conc-); 2 (12) histories of 300 calls; plus batch lines (a history of 2..8 Encode calls whose returned slices are kept and re-verified after the whole batch); distinct = distinct input line; non-trivial = verdict class not 'skipped'",
     "timeout": {"quick": 600, "thorough": 3000},
     "explanation": "Each real wkt.Encode output is (1) parsed by the independent Lean OGC parser with exact round-to-nearest-even number "
                    "conversion and compared bit-for-bit with the input geometry (SPEC), each number token additionally checked to be the "
-                   "shortest round-tripping literal, and (2) compared byte-for-byte with the model's text (DIFF).",
+                   "shortest round-tripping literal, and (2) compared byte-for-byte with the model's text (DIFF). Errors are compared with the model in kind, named type, message and returned bytes; the argument is compared before/after the call.",
 }
